@@ -14,8 +14,9 @@ def run(rep):
     with mp.Pool(NPROCS) as pool:
         cases = pool.map(condgen.make_simul_case, [(rep.seed * 100003 + i, cap) for i in range(n)], chunksize=4)
     built = [c for c in cases if not c["raised"]]
+    rep.coverage["designs_refused_by_usage_rule"] = sum(1 for c in cases if c["raised"] and c.get("usage_rule"))
     for c in cases:
-        if c["raised"]:
+        if c["raised"] and not c.get("usage_rule"):
             rep.violation({"component": "simultaneous", "cfg": {"seed": c["seed"]}, "clauses": ["ElaborationRaised"],
                            "what": c["exc"], "design": c["design"]})
     res, acc, rej, dev = judge.judge("SimultaneousTrace", [{"design": c["design"], "cycles": c["cycles"]} for c in built])
